@@ -21,8 +21,8 @@ def run(ctx):
     b = ctx.build("vd-vbft")
     ctx.mc("VbftSelectMC", "VbftSelect_mc_quick.cfg" if q else "VbftSelect_mc_thorough.cfg", timeout=6000,
            workers=max(2, ctx.cores // 2))
-    builds, seeds = (35, 1) if q else (1000, 12)
-    events = ctx.driver(b, ["select", str(builds), str(seeds)])
+    builds, seeds, xbuilds, xre = (35, 1, 150, 3) if q else (1000, 12, 1500, 25)
+    events = ctx.driver(b, ["select", str(builds), str(seeds), str(xbuilds), str(xre)])
     cfgs, cur = {}, None
     ok_by_n, err_by_n, distinct = {}, {}, set()
     for e in events:
